@@ -29,7 +29,8 @@ def main():
         a = sh(["git", "-C", REPO, "apply", patch])
         if a.returncode != 0:
             a = sh(["git", "-C", REPO, "apply", "--3way", patch])
-        if a.returncode != 0:
+        conflict = sh(["git", "-C", REPO, "grep", "-l", "-E", "^(<<<<<<<|>>>>>>>) ", "--", "*.rs"]).stdout.strip()
+        if a.returncode != 0 or conflict:
             sh(["git", "-C", REPO, "checkout", "--", "."])
             sh(["git", "-C", REPO, "reset", "-q"])
             results[sid] = {"repo_head": head, "applies": False, "detail": a.stdout[-400:]}
@@ -45,7 +46,8 @@ def main():
         viol = re.findall(r"^VIOLATION property=(\S+) replay=(\S+)(.*)$", r.stdout, re.M)
         summ = re.search(r"obligations=(\d+)/(\d+) cases=(\d+) distinct_nontrivial=(\d+) disagreements=(\d+) oracle_failures=(\d+)", r.stdout)
         kinds = sorted({os.path.basename(v[1]).rsplit("_", 1)[0] for v in viol})
-        caught = r.returncode == 1 and bool(viol)
+        # a run that only reports a machinery error (e.g. the patched tree does not build) decides nothing
+        caught = r.returncode == 1 and bool(viol) and kinds != ["machinery.json"]
         missed += 0 if caught else 1
         results[sid] = {
             "repo_head": head, "applies": True, "caught": caught, "exit": r.returncode,
